@@ -39,6 +39,9 @@ BUDGET_S = {'quick': 400, 'thorough': 3000}
 CASE_TIMEOUT_S = 300
 
 
+RENAMED_IGNORED = 'case:pipeline:renamed-ignored-callee-not-excluded'
+
+
 def fold_path(p, root):
     p = str(p).lower()
     root = str(root).lower()
@@ -199,16 +202,21 @@ def diff_obs(a, b, viol, cnt, ctx=None):
             only_a = sorted(set(ga['nodes']) - set(gb['nodes']))[:4]
             only_b = sorted(set(gb['nodes']) - set(ga['nodes']))[:4]
             kinds = sorted(n for n in set(ga['nodes']) & set(gb['nodes']) if ga['nodes'][n] != gb['nodes'][n])[:3]
-            how = ''
             diff = set(ga['nodes']) ^ set(gb['nodes'])
-            if key == 'graph_after' and ctx and diff and all(ctx['suffix'].lower() in n for n in diff) and ctx['has_ignore']:
-                how = ':renamed-ignored-callee'
             if key == 'graph_after':
                 a['graph_after_differs'] = True
-            viol(f'case:{key}:nodes-differ{how}', f'only in P: {only_a}; only in twin: {only_b}; kind differs: {kinds}')
+            if key == 'graph_after' and ctx and diff and all(ctx['suffix'].lower() in n for n in diff) \
+                    and ctx['twin_ignore_mixed_case']:
+                viol(RENAMED_IGNORED, f'only in P: {only_a}; only in twin: {only_b}')
+            else:
+                viol(f'case:{key}:nodes-differ', f'only in P: {only_a}; only in twin: {only_b}; kind differs: {kinds}')
         elif ga['edges'] != gb['edges']:
-            d = sorted(set(map(tuple, ga['edges'])) ^ set(map(tuple, gb['edges'])))[:4]
-            viol(f'case:{key}:edges-differ', f'edges in one graph only: {d}')
+            d = sorted(set(map(tuple, ga['edges'])) ^ set(map(tuple, gb['edges'])))
+            if key == 'graph_after' and ctx and all(ctx['suffix'].lower() in e[1] for e in d) \
+                    and ctx['twin_ignore_mixed_case']:
+                viol(RENAMED_IGNORED, f'edges in one graph only: {d[:4]}')
+            else:
+                viol(f'case:{key}:edges-differ', f'edges in one graph only: {d[:4]}')
         elif ga.get('ignored') != gb.get('ignored'):
             d = sorted(n for n in ga['ignored'] if ga['ignored'][n] != gb['ignored'].get(n))[:4]
             viol(f'case:{key}:ignored-flags-differ', f'is_ignored differs for {d}')
@@ -255,7 +263,12 @@ def diff_obs(a, b, viol, cnt, ctx=None):
             order = a['pipeline_order']
             stages = [order.index(o['pipeline_stage']) for o in (a, b) if o.get('pipeline_stage') in order]
             first = order[min(stages)] if stages else 'unknown'
-            viol(f'case:pipeline:error-differs:{first}', f'P: {a["pipeline_error"]}  twin: {b["pipeline_error"]}')
+            if first == 'DependencyTransformation' and ctx and ctx.get('twin_ignore_mixed_case') and \
+                    '_get_procedure_item' in str(b['pipeline_error']) and a['pipeline_error'] is None:
+                # strict: the renamed, no longer excluded callee is not found
+                viol(RENAMED_IGNORED, f'P: {a["pipeline_error"]}  twin: {b["pipeline_error"]}')
+            else:
+                viol(f'case:pipeline:error-differs:{first}', f'P: {a["pipeline_error"]}  twin: {b["pipeline_error"]}')
             return
         if a.get('cache_keys_after') != b.get('cache_keys_after') and not a.pop('graph_after_differs', False):
             d = sorted(set(a.get('cache_keys_after') or []) ^ set(b.get('cache_keys_after') or []))[:6]
@@ -333,12 +346,39 @@ def run_case(idx, rng, tier, ctx):
                 'twin_seeds': seeds_b, 'sources': src_a, 'twin_sources': src_b, 'suffix_flip': flip}
 
         def viol(key, msg, info=info, option_case=option_case):
-            if option_case and key.startswith('case:'):
+            if option_case and key.startswith('case:') and key != RENAMED_IGNORED:
                 key += ':option-case'
             if not any(v['key'] == key for v in res['violations']):
                 res['violations'].append({'key': key, 'msg': msg, 'witness': info})
         has_ignore = any(sc.get('ignore') for sc in [config['default']] + list(config['routines'].values()))
-        diff_obs(obs_a, obs_b, viol, cnt, {'suffix': opts['suffix'], 'has_ignore': has_ignore})
+        mixed = any(e != e.lower() for sc in [cfg_b['default']] + list(cfg_b['routines'].values())
+                    for e in sc.get('ignore', []) or [])
+        diff_obs(obs_a, obs_b, viol, cnt, {'suffix': opts['suffix'], 'has_ignore': has_ignore,
+                                            'twin_ignore_mixed_case': mixed})
+        post = [v for v in res['violations'] if v['witness'] is info and
+                (v['key'].startswith('case:pipeline') or v['key'].startswith('case:graph_after'))
+                and v['key'] != RENAMED_IGNORED]
+        if post and mixed:
+            # causal attribution: repeat the twin with only the ignore entries in lower case; if the difference
+            # disappears it is the known mechanism (raw ignore entries compared with lower-cased keys on renaming)
+            cfg_c = {'default': dict(cfg_b['default']), 'routines': {k: dict(e) for k, e in cfg_b['routines'].items()}}
+            for sc in [cfg_c['default']] + list(cfg_c['routines'].values()):
+                if sc.get('ignore'):
+                    sc['ignore'] = [e.lower() for e in sc['ignore']]
+            root_c, out_c = base / f't{t}c' / 'src', base / f't{t}c' / 'out'
+            out_c.mkdir(parents=True)
+            for rel, text in src_b.items():
+                (root_c / rel).parent.mkdir(parents=True, exist_ok=True)
+                (root_c / rel).write_text(text)
+            tmp = []
+            obs_c, _ = observe(root_c, out_c, cfg_c, seeds_b, opts_b, {})
+            obs_a.pop('graph_after_differs', None)
+            diff_obs(obs_a, obs_c, lambda k, m: tmp.append(k), {}, None)
+            cnt['attribution_reruns'] = cnt.get('attribution_reruns', 0) + 1
+            if not any(k.startswith('case:pipeline') or k.startswith('case:graph_after') for k in tmp):
+                res['violations'] = [v for v in res['violations'] if v not in post]
+                viol(RENAMED_IGNORED, 'difference disappears when the ignore entries of the twin config are written '
+                     'in lower case: ' + post[0]['key'] + ': ' + post[0]['msg'])
         sigs.append([src_b, cfg_b, seeds_b, opts_b])
         ndiff = sum(x != y for ta, tb in zip(src_a.values(), src_b.values()) for x, y in zip(ta, tb))
         if ('nodes' in obs_a.get('full_graph', {}) and len(obs_a['full_graph']['nodes']) >= 4
